@@ -254,7 +254,11 @@ def history_search(run, cfg, depth):
 def static_case(env, case, st):
     L, base, _ = env
     b = split_battery(base)
-    STATIC_OK = [2, 3, 4, 5, 6, 8, 9, 10, 14, 15, 17, 21, 23, 31, 32, 33, 34, 37, 39]
+    # battery ops ALL of whose API calls are documented without the "(not secp256k1_context_static)" restriction (derived from the
+    # headers: a function whose Args line reads just "a secp256k1 context object" accepts the static context; rangeproof_verify,
+    # surjectionproof_verify and whitelist_verify - ops 23, 33, 34 - ARE documented as not accepting it, so for them either outcome
+    # is legal; op 30 is left out because aggverify's header is silent while its code asks for a full context)
+    STATIC_OK = [2, 3, 4, 5, 6, 8, 9, 10, 14, 15, 17, 21, 31, 32, 35, 36, 37, 38, 39]
     sz = L.verif_ctx_sizeof()
     copy = buf(sz)
     ctypes.memmove(copy, L.static_ctx, sz)
